@@ -1,7 +1,7 @@
 (* C06 — property theorems. Statements only, each closed by `exact <lemma>` from Proofs.v, with
    Print Assumptions beneath, and the non-vacuity examples. *)
 From Coq Require Import Permutation.
-From C06 Require Import Model CaseDefs Proofs ProofsQ ProofsA ProofsC ProofsL ProofsT.
+From C06 Require Import Model CaseDefs Proofs ProofsQ ProofsA ProofsC ProofsL ProofsT ProofsK.
 Open Scope Z_scope.
 
 (* SamplesContainer.Merge: if container a holds exactly (Total, Sum, Min, Max, NotExists, sample
@@ -181,3 +181,10 @@ Example C06_merge_order_nonvacuous :
 Proof.
   split; [|reflexivity]. simpl. apply Permutation_sym. apply (Permutation_cons_app [_; _] [] _). apply Permutation_refl.
 Qed.
+
+(* AggBin key codec (JSON form of AggregatableSamples): fromKey (toKey b) = b for every token, also
+   one containing the separator '|', and every MID (decimal codec modelled digit by digit; the model
+   corresponds to the code for MID < 2^63, where strconv.Itoa(int(mid)) prints no sign). *)
+Theorem C06_aggbin_key_codec : forall mid tok, from_key (to_key mid tok) = Some (mid, tok).
+Proof. exact ProofsK.key_codec. Qed.
+Print Assumptions C06_aggbin_key_codec.
